@@ -6,7 +6,8 @@ import subprocess
 import sys
 import tempfile
 
-from mc import env, explore, ops as O, tables
+from mc import core, env, explore, ops as O, tables
+from mc.core import compare
 from mc.core import STAGES, exc_kind, optimize_until, short, time_limit, CaseTimeout
 from mc.env import pd, np
 from mc.structkey import ekey, okey
@@ -218,9 +219,116 @@ def variations(node, siblings):
             yield i, type(m).__name__, new
 
 
+_VERSION = [0]
+
+
+def _impure_load(i):
+    """A source function whose output depends on state outside its arguments (files rewritten between two reads)."""
+    d = DATA_TABLES[_VERSION[0]]
+    return d.iloc[:3] if i == 0 else d.iloc[3:]
+
+
+DATA_TABLES = {}
+
+
+def _data_table(cell):
+    base = pd.DataFrame({"k": [1, 2, 3, 4, 5, 6], "v": [10.0, 20.0, 30.0, 40.0, 50.0, 60.0], "s": list("abcdef")})
+    if cell is None:
+        return base
+    r, c = cell
+    d = base.copy()
+    d.iloc[r, c] = {"k": 99, "v": 0.5, "s": "zz"}[d.columns[c]]
+    return d
+
+
+IMPORT_KINDS = ["from_pandas", "from_dict", "from_array", "from_graph", "persist_from_pandas", "persist_impure_map", "from_legacy", "from_delayed", "from_map_args"]
+DERIVED = {"none": lambda x: x, "sum": lambda x: x[x.columns[0]].sum(), "filter_proj": lambda x: x[x[x.columns[0]] > 1][[x.columns[-1]]], "persist": lambda x: x.persist(scheduler="sync")}
+
+
+def _import(kind, d, version):
+    import dask_expr as dx
+
+    if kind == "from_pandas":
+        return dx.from_pandas(d, npartitions=2)
+    if kind == "from_dict":
+        return dx.from_dict(d.to_dict(orient="list"), npartitions=2)
+    if kind == "from_array":
+        return dx.from_array(d[["k", "v"]].to_numpy(dtype="float64"), chunksize=3, columns=["k", "v"])
+    if kind == "from_graph":
+        layer = {("part", 0): d.iloc[:3], ("part", 1): d.iloc[3:]}
+        return dx.from_graph(layer, d.iloc[:0], (None, None, None), [("part", 0), ("part", 1)], "imported")
+    if kind == "persist_from_pandas":
+        return dx.from_pandas(d, npartitions=2).persist(scheduler="sync")
+    if kind == "persist_impure_map":
+        DATA_TABLES[version] = d
+        _VERSION[0] = version
+        return dx.from_map(_impure_load, [0, 1], meta=d.iloc[:0]).persist(scheduler="sync")
+    if kind == "from_legacy":
+        import dask.dataframe as dd  # noqa: F401
+
+        return dx.from_legacy_dataframe(dx.from_pandas(d, npartitions=2).to_legacy_dataframe())
+    if kind == "from_delayed":
+        from dask import delayed
+
+        return dx.from_delayed([delayed(d.iloc[:3], pure=True), delayed(d.iloc[3:], pure=True)], meta=d.iloc[:0])
+    if kind == "from_map_args":
+        return dx.from_map(_ident, [d.iloc[:3], d.iloc[3:]], meta=d.iloc[:0])
+    raise ValueError(kind)
+
+
+def _ident(x):
+    return x
+
+
+def evaluate_data(case):
+    """Equal-looking inputs with different data: same import path, same shape / labels / dtypes, ONE cell differs."""
+    viols, info = [], {"nontrivial": True}
+    try:
+        with time_limit(90):
+            base = _data_table(None)
+            other = _data_table(tuple(case["cell"]))
+            if case["kind"] == "from_array" and base.columns[case["cell"][1]] == "s":
+                return {"status": "rejected", "viols": [], "info": {"why": "column not in the array"}}
+            a0 = _import(case["kind"], base, 0)
+            b0 = _import(case["kind"], other, 1)
+            fn = DERIVED[case["derived"]]
+            a, b = fn(a0), fn(b0)
+            # the first collection is still alive: equal names would make the second one the same object
+            if a._name == b._name:
+                viols.append({"kind": "same_name_for_different_data", "detail": f"{a._name}"})
+            na = {e._name for e in a.expr.walk()}
+            nb = {e._name for e in b.expr.walk()}
+            va = core.run(a.optimize().expr)
+            vb = core.run(b.optimize().expr)
+
+            def ref(d):
+                d = d[["k", "v"]].astype("float64") if case["kind"] == "from_array" else d
+                if case["derived"] == "sum":
+                    return d[d.columns[0]].sum()
+                if case["derived"] == "filter_proj":
+                    return d[d[d.columns[0]] > 1][[d.columns[-1]]]
+                return d
+            for nm, got, d in (("first", va, base), ("second", vb, other)):
+                r = compare(ref(tables.dask_dtypes(d)), got, ordered=True, labelled=False, check_kinds=False)
+                if r:
+                    viols.append({"kind": f"{nm}_collection_wrong:" + r.split(" ")[0], "detail": r})
+            # rebuilding the second one again (same data) must give the same name
+            b1 = fn(_import(case["kind"], other, 1))
+            if b1._name != b._name:
+                viols.append({"kind": "same_data_two_names", "detail": f"{b._name} / {b1._name}"})
+            info["shared_node_names"] = len(na & nb)
+    except CaseTimeout as e:
+        return {"status": "viol", "viols": [{"kind": "timeout", "detail": str(e)}], "info": {}}
+    except Exception as e:  # noqa: BLE001
+        return {"status": "viol", "viols": [{"kind": "raises:" + core.exc_kind(e), "detail": core.short(e)}], "info": info}
+    return {"status": "viol" if viols else "ok", "viols": viols, "info": info}
+
+
 def evaluate(case, keep_pairs=False):
     if case.get("mode") == "pair":
         return evaluate_pair(case)
+    if case.get("mode") == "data":
+        return evaluate_data(case)
     r = _evaluate_main(case)
     if not keep_pairs:
         r.get("info", {}).pop("pairs", None)
@@ -302,14 +410,15 @@ def _evaluate(case):
 
 def run(ctx):
     if ctx.tier == "quick":
-        plan = [(["T:3"], [2, 2]), (["T:d3", "T:m4,8", "T:a3"], [2])]
+        plan = [(["T:3"], [2, 1]), (["T:d3", "T:m4,8", "T:a3"], [2])]
     else:
         plan = [(["T:3"], [2, 2]), (["T:3"], [1, 1, 1]), (["T:1", "T:u4", "TX:3"], [2, 2])]
     ctx.rule = ("E1 BFS over programs; per program: names of every node of the logical/simplified/physical/fused plan and the graph key "
                 "set, rebuilt twice in process and in 4 fresh interpreters with different PYTHONHASHSEED and construction orders, must be "
                 "identical; the map name -> independent structural key over ALL nodes produced by the whole exploration must be a function "
                 "(equal name => equal structure); every operand of every node is replaced by other values of its domain and the name must "
-                "change; non-trivial = program with more than one node")
+                "change; equal-looking inputs (9 import paths incl. persist / from_graph / from_delayed / legacy, same shape and labels, ONE cell differs, x 4 derived queries) "
+                "must get different names and each its own values; non-trivial = program with more than one node")
     global_pairs = {}
     okcases = []
     nvar = 0
@@ -331,6 +440,9 @@ def run(ctx):
     # the default (disk) shuffle method on a handful of shuffle-bearing programs
     disk_cases = [{"src": "T:2", "ops": ops, "method": "disk", "vary": False} for ops in (["shuffle_a"], ["sort_u"], ["set_index_u"], ["merge_T2_inner"], ["dropdup"], ["gb_a_sum_so2"])]
     ctx.map(evaluate, disk_cases, chunk=2)
+    data_cases = [{"mode": "data", "kind": k, "cell": [r, c], "derived": dv} for k in IMPORT_KINDS for r in (0, 2, 3, 5) for c in (0, 1, 2) for dv in DERIVED]
+    ctx.map(evaluate, data_cases, chunk=16)
+    ctx.cov["equal_looking_inputs_cases"] = len(data_cases)
     ctx.cov["distinct_names"] = len(global_pairs)
     ctx.cov["operand_variations"] = nvar
     for case, other, name in collisions[:50]:
@@ -349,7 +461,23 @@ def run(ctx):
         case = {"src": src, "ops": [o for o in opsstr.split(",") if o], "mode": "xproc"}
         kind = "unstable_across_processes:" + _unstable_kind(flds)
         ctx.failures.append((case, {"kind": kind, "detail": f"fields {flds}"}))
-    return ctx.finish(evaluate, explore.shrink_prog, explore.prog_key)
+    return ctx.finish(evaluate, shrink, key)
+
+
+def key(case):
+    if case.get("mode") == "data":
+        return f"data|{case['kind']}|cell={case['cell']}|{case['derived']}"
+    return explore.prog_key(case)
+
+
+def shrink(case):
+    if case.get("mode") == "data":
+        if case["derived"] != "none":
+            yield dict(case, derived="none")
+        if case["cell"] != [0, 0]:
+            yield dict(case, cell=[0, 0])
+        return
+    yield from explore.shrink_prog(case)
 
 
 def evaluate_pair(case):
